@@ -38,7 +38,11 @@ class Job:
                  unwind=None, strcap=32, timeout=None, tier='quick', cname=None, may_throw=None, srcrel=None,
                  extra_cflags=(), cbmc_flags=(), no_checks=False, stubs=(), self_const=None, arity=None,
                  inline_select=None, object_bits=None, lemma=False, defines=(), variant_of=None, kf=None,
-                 description='', cases=None, case=None, replay_ghost=(), replay_domain=None, variants=None, unwindset=None, assume=None, contract_name=None, sat=None, exclude_clauses=(), harness=None, enforce=True, lean=None, rewrites=None):
+                 description='', cases=None, case=None, replay_ghost=(), replay_domain=None, variants=None, unwindset=None, assume=None, contract_name=None, sat=None, exclude_clauses=(), harness=None, enforce=True, lean=None, rewrites=None, extra_replace=(), require=(), structs=(), allow_unreachable=()):
+        self.allow_unreachable = list(allow_unreachable)   # regexes of source lines that are legitimately unreachable under the contract's precondition (each with its reason in the job description)
+        self.structs = list(structs)   # classes whose data members the (rewritten) body or the contract names directly: their struct is generated from the header
+        self.extra_replace = list(extra_replace)   # cnames of contract-only functions declared by hand in the contract file's ghost section (operators of helper classes the rewrites call)
+        self.require = list(require)   # [(repo-relative file, regex)]: source text the job's rewrites rely on (e.g. `T operator()() const { return _s; }`); missing -> extraction break, never a verdict
         self.rewrites = rewrites   # [(regex, replacement)] applied to the C++ text first (rule R16: stream / container accesses become stub calls); each must apply
         self.lean = lean   # path (relative to /verif) of a Lean 4 file of pure integer bridging lemmas (DESIGN 3.7)
         self.enforce = enforce   # False: the extracted body is used as is inside a relational lemma harness (DFCC allows one enforced call only)
@@ -166,6 +170,7 @@ def build_tu(proj, job):
         cfi = T.funcinfo(proj, q, opt.get('cname'), real, opt.get('select'), opt.get('may_throw', False), opt.get('arity'))
         if opt.get('static'):
             cfi.is_method = False   # called on a library singleton (R19b): the object is dropped, the contract is for that instance
+        cfi.replaced = True   # its call sites get a vacuity canary (rule R6.call_site_canary)
         functable.setdefault(q, []).append(cfi)
         callee_infos.append((cfi, opt))
     for spec in job.inline:
@@ -228,6 +233,7 @@ def build_tu(proj, job):
     for p_ in fi.params:
         if p_.kind in ('obj_in', 'obj_out') and 'struct ' in p_.ctype:
             need_struct.add(p_.ctype.replace('const', '').replace('*', '').replace('struct', '').strip())
+    need_struct.update(getattr(job, 'structs', ()))
     opaque = set()
     for c in sorted(need_struct):
         for t in T.member_class_types(proj, c, real):
@@ -274,6 +280,13 @@ def build_tu(proj, job):
         parts.append(T.callee_decl(cfi, cc, ghost=opt.get('ghost', True)))
         callee_contracts.append(cc)
         replace_cnames.append(cfi.cname)
+    for xc in getattr(job, 'extra_replace', ()):
+        cc = T.Contract(T.contract_path(xc))
+        if cc.prototype is None or not cc.clauses:
+            raise ExtractError('extra_replace %s: contracts/%s.c needs a /*@ prototype */ section and clauses' % (xc, xc))
+        parts.append(emit_ghost_of(cc))
+        parts.append(('#line %d "%s"\n' % (cc.prototype[1], cc.path)) + '\n'.join(cc.prototype[2]) + '\n' + cc.emit_clauses(mode='replace-ghost') + '\n;')
+        callee_contracts.append(cc)
     parts.append(emit_ghost_of(contract))
     # inlined helper bodies (extracted by the same rules); prototypes first, so that their order does not matter
     metas = []
@@ -300,6 +313,12 @@ def build_tu(proj, job):
     parts.append('#define VERIF_GHOST_INIT ' + ' '.join(ghost_inits))
     parts.append(gen_harness(job, fi, contract))
     text = '\n'.join(parts) + '\n'
+    for rel, pat in getattr(job, 'require', ()):
+        txt_ = ' '.join(proj.clean(rel).split())
+        if not re.search(pat, txt_):
+            raise ExtractError('required source text %r not found in %s (the job rewrites an operator by hand and must see its definition unchanged)' % (pat, rel))
+        report.hit('R16.required_source_text(%s)' % pat)
+    replace_cnames = replace_cnames + list(getattr(job, 'extra_replace', ()))
     return dict(text=text, entry='h_' + fi.cname, cname=(fi.cname if getattr(job, 'enforce', True) else None), replace=replace_cnames, contract=contract,
                 report=report, metas=metas, fi=fi, has_loops=bool(contract.loops), loop_lines=ex.loop_lines)
 
@@ -448,13 +467,13 @@ def run_job(proj, job, workdir, tier='quick', seed=0, only_property=None, noslic
     # tree on every run) and of the tool command lines; a later check that needs the same function reuses it.
     cache_key = hashlib.sha256(('\n'.join([b['text'], repr(job.defines), repr(job.unwind), repr(getattr(job, 'unwindset', None)), repr(job.cbmc_flags),
                                              repr(getattr(job, 'sat', None)), repr(job.object_bits), repr(only_property), repr(noslice), repr(b['replace']),
-                                             tier if job.timeout is None else str(job.timeout), shim_hash(), 'v4'])).encode()).hexdigest()
+                                             tier if job.timeout is None else str(job.timeout), shim_hash(), 'v5'])) .encode()).hexdigest()
     cache_path = os.path.join(OUT, 'cache', cache_key + '.json')
     if os.environ.get('VERIF_NOCACHE') != '1' and os.path.exists(cache_path):
         try:
             with open(cache_path) as fc:
                 cached = json.load(fc)
-            for k in ('status', 'obligations', 'failures', 'solver_s', 'diag', 'backend', 'n_obligations', 'n_discharged', 'canary_ok', 'checker_cmd',
+            for k in ('status', 'obligations', 'failures', 'solver_s', 'diag', 'backend', 'n_obligations', 'n_discharged', 'canary_ok', 'checker_cmd', 'line_coverage', 'site_canaries',
                       'instrument_cmd', 'warnings', 'excluded_integer_conversion_checks'):
                 if k in cached:
                     res[k] = cached[k]
@@ -544,6 +563,7 @@ def run_job(proj, job, workdir, tier='quick', seed=0, only_property=None, noslic
         if 'too many addressed objects' not in txt:
             break
     dt = dt_total
+    used_objbits = ob
     res['checker_cmd'] = res['checker_cmd'].replace('OBJBITS', str(ob))
     res['solver_s'] = round(dt, 2)
     if rc == 'timeout':
@@ -570,6 +590,7 @@ def run_job(proj, job, workdir, tier='quick', seed=0, only_property=None, noslic
     res['warnings'] = [m for m in msgs if 'ignoring' in m or 'no body' in m][:20]
     contract = b['contract']
     canary_ok = False
+    site_canaries = {}
     infra = []
     dropped_conv = []
     for r in results:
@@ -595,7 +616,9 @@ def run_job(proj, job, workdir, tier='quick', seed=0, only_property=None, noslic
             continue
         if desc.startswith('canary'):
             ob['canary'] = True
-            if r['status'] == 'FAILURE':
+            if desc.startswith('canary: call of'):
+                site_canaries[desc] = site_canaries.get(desc, False) or r['status'] == 'FAILURE'
+            elif r['status'] == 'FAILURE':
                 canary_ok = True
             res['obligations'].append(ob)
             continue
@@ -626,16 +649,150 @@ def run_job(proj, job, workdir, tier='quick', seed=0, only_property=None, noslic
         res['diag'] = 'vacuity guard: the canary assertion after the call was NOT reachable (contradictory preconditions?)'
     else:
         res['status'] = 'ok'
+        # Second / third vacuity guards (per path, not only the end of the harness); both are EVALUATED per base job over the union of its
+        # case / variant / known-finding sub-jobs (function vacuity_report below), because a case split legitimately makes other cases' lines unreachable:
+        #  - every call site of a replaced callee must return on some input (site canaries, recorded above);
+        #  - every source line of the function under contract must be reachable (cbmc --cover location).
+        # A contradictory assumed callee contract (or precondition) silently cuts the paths after the call -- all their obligations are then
+        # 'discharged' -- and shows up as an unreached site / line.
+        if getattr(job, 'case', None) is not None:
+            # sub-job of an input case split: the per-line guard would need the union over all cases and costs a second solver run per case
+            # (measured: 95 s per case for MGRS::Reverse); the split is guarded by its #exhaustive obligation, the per-case end-of-harness canary
+            # and the call-site canaries instead
+            res['line_coverage'] = dict(skipped='input case split: guarded by #exhaustive + end canary + call-site canaries')
+        else:
+            try:
+                job._repo = proj.repo
+                res['line_coverage'] = line_coverage(job, b, cmd, used_objbits, b_gb, workdir, sub)
+            except Exception as e:
+                res['line_coverage'] = dict(error=str(e))
+    res['site_canaries'] = site_canaries
     res['wall_s'] = round(time.time() - t0, 2)
     if res['status'] in ('ok', 'fail'):
         try:
             os.makedirs(os.path.join(OUT, 'cache'), exist_ok=True)
             with open(cache_path, 'w') as fc:
                 json.dump({k: res[k] for k in ('status', 'obligations', 'failures', 'solver_s', 'diag', 'backend', 'n_obligations', 'n_discharged', 'canary_ok',
-                                                'checker_cmd', 'instrument_cmd', 'warnings', 'excluded_integer_conversion_checks') if k in res}, fc)
+                                                'checker_cmd', 'instrument_cmd', 'warnings', 'excluded_integer_conversion_checks', 'line_coverage', 'site_canaries') if k in res}, fc)
         except Exception:
             pass
     return res
+
+
+def line_coverage(job, b, cmd, ob, b_gb, workdir, sub):
+    """lines of the function under contract (real /repo line numbers, via #line) that no satisfiable basic block contains"""
+    metas = b.get('metas') or []
+    m0 = next((m for m in metas if m.get('role') == 'under contract' and m.get('lines')), None)
+    if m0 is None:
+        return dict(skipped='no function body under contract (lemma job)')
+    srcfile = os.path.join(getattr(job, '_repo', '/repo'), m0['file'])
+    lo, hi = m0['lines']
+    drop = set(CHECK_FLAGS) | {'--trace', '--json-ui'}
+    cov_cmd = ['cbmc', b_gb, '--cover', 'location', '--cover-failed-assertions', '--json-ui']
+    skip = False
+    for c in cmd[2:]:
+        if skip:
+            skip = False
+            continue
+        if c in drop:
+            continue
+        if c == '--property':
+            skip = True
+            continue
+        cov_cmd.append(str(ob) if c == 'OBJBITS' else c)
+    cov_cmd = [c for c in cov_cmd if c != '--unwinding-assertions']
+    jp = os.path.join(workdir, sub + '.cover.json')
+    dt = 0.0
+    for bits in range(int(ob), 14):
+        # the coverage instrumentation adds objects: same retry rule as the main run
+        cc = list(cov_cmd)
+        if '--object-bits' in cc:
+            cc[cc.index('--object-bits') + 1] = str(bits)
+        rc, out, err, dt1 = run_cmd(cc, min(300, job.timeout or 300), stdout_path=jp)
+        dt += dt1
+        if rc == 'timeout':
+            return dict(skipped='coverage run timed out after %.0fs (the per-path guard is not available for this sub-job)' % dt, seconds=round(dt, 1))
+        try:
+            if 'too many addressed objects' not in open(jp).read():
+                break
+        except Exception:
+            break
+    data = json.load(open(jp))
+    goals = None
+    for m in data:
+        if 'goals' in m:
+            goals = m['goals']
+    if goals is None:
+        return dict(skipped='no goals in the coverage output: ' + ' | '.join(m.get('messageText', '')[:200] for m in data if m.get('messageType') == 'ERROR')[:400])
+    seen, hit = set(), set()
+    for g in goals:
+        mm = re.search(r'\(lines (.*)\)\s*$', g.get('description', ''))
+        if not mm:
+            continue
+        for part in mm.group(1).split(';'):
+            pm = re.match(r'\s*(\S+?):([^:]*):([\d,\-]+)\s*$', part)
+            if not pm or os.path.abspath(pm.group(1)) != os.path.abspath(srcfile):
+                continue
+            for rng in pm.group(3).split(','):
+                a, _, z = rng.partition('-')
+                for ln in range(int(a), int(z or a) + 1):
+                    if lo <= ln <= hi:
+                        seen.add(ln)
+                        if g.get('status') == 'satisfied':
+                            hit.add(ln)
+    return dict(file=m0['file'], seen=sorted(seen), hit=sorted(hit), seconds=round(dt, 1))
+
+
+def vacuity_report(proj, base_job, sub_results):
+    """per base job, over ALL its sub-jobs: (unreached call sites of replaced callees, unreachable source lines, notes)"""
+    allow = [re.compile(r) for r in getattr(base_job, 'allow_unreachable', ()) if not r.startswith('block:')]
+    sites = {}
+    for r in sub_results:
+        for d, h in (r.get('site_canaries') or {}).items():
+            sites[d] = sites.get(d, False) or h
+    unreached = [d for d, h in sorted(sites.items()) if not h and not any(rx.search(d) for rx in allow)]
+    seen, hit, notes, srcrel = set(), set(), [], None
+    for r in sub_results:
+        lc = r.get('line_coverage') or {}
+        if lc.get('skipped') or lc.get('error') or 'seen' not in lc:
+            notes.append('%s: %s' % (r['job'], lc.get('skipped') or lc.get('error')))
+            # a sub-job without coverage data: its lines count as reachable (the guard is then only as strong as the remaining sub-jobs)
+            continue
+        srcrel = lc.get('file', srcrel)
+        seen.update(lc.get('seen', []))
+        hit.update(lc.get('hit', []))
+    if getattr(base_job, 'cases', None) or any(('seen' not in (r.get('line_coverage') or {})) for r in sub_results):
+        missing = []   # incomplete data: do not claim unreachability
+    else:
+        missing = sorted(seen - hit)
+    unreachable = []
+    if missing and srcrel:
+        src_lines = open(os.path.join(proj.repo, srcrel), errors='replace').read().split('\n')
+        # 'block:<regex>' : every line of the statement / brace block that starts on a line matching the regex (up to the closing brace or the ';')
+        allowed_lines = set()
+        for a in getattr(base_job, 'allow_unreachable', ()):
+            if not a.startswith('block:'):
+                continue
+            rx = re.compile(a[len('block:'):])
+            for i, text in enumerate(src_lines):
+                if rx.search(text):
+                    depth, j, opened = 0, i, False
+                    while j < len(src_lines):
+                        for ch in src_lines[j]:
+                            if ch in '{(':
+                                depth += 1
+                                opened = opened or ch == '{'
+                            elif ch in '})':
+                                depth -= 1
+                        allowed_lines.add(j + 1)
+                        if depth <= 0 and (opened or src_lines[j].rstrip().endswith(';')):
+                            break
+                        j += 1
+        for ln in missing:
+            text = src_lines[ln - 1] if ln - 1 < len(src_lines) else ''
+            if ln not in allowed_lines and not any(rx.search(text) for rx in allow):
+                unreachable.append(ln)
+    return unreached, unreachable, srcrel, notes, dict(call_sites=len(sites), lines_with_code=len(seen), lines_reachable=len(hit))
 
 
 def run_lean(job, res, t0):
